@@ -558,6 +558,12 @@ FIXED += [
      json.loads('{"mode": "directed", "result": "v13", "steps": [{"out": "v0", "table": "t0", "verb": "source"}, {"in": "v0", "items": [["p", ["fn", "shift", [["fn", "hmax", [["lit", 0], ["col", {"n": "c", "v": "v0"}]], {}], ["lit", -1], ["lit", 10.0]], {"arrange": [[["col", {"n": "b", "v": "v0"}], false, "first", 1], [["col", {"c": "id"}], false, null, 0]]}]]], "out": "v1", "verb": "mutate"}, {"cols": [{"c": "id"}, {"c": "b"}, {"c": "c"}], "in": "v1", "out": "v6", "verb": "select"}, {"in": "v1", "items": [["c", ["col", {"c": "p"}]]], "out": "v9", "verb": "mutate"}, {"cols": [{"c": "c"}, {"c": "b"}, {"c": "id"}], "in": "v9", "out": "v10", "verb": "select"}, {"in": "v6", "items": [["b_r", ["lit", 1]]], "out": "v11", "verb": "mutate"}, {"in": "v10", "items": [["b_r", ["lit", 2]]], "out": "v12", "verb": "mutate"}, {"distinct": true, "in": "v11", "out": "v13", "right": "v12", "verb": "union"}], "tables": [{"cols": [["id", "int64"], ["b", "float64"], ["c", "int64"]], "name": "t0", "rows": []}]}')),
 ]
 
+FIXED += [
+    ('F79-rename-two-columns-same-new-name', 'C14', 'rename refuses two columns mapped to the same new name',
+     "rename({'a': 'z', 'b': 'z'}) was accepted: the duplicate check compared the new names only with the columns that are not renamed; one column was lost from the table's names and the Polars export raised DuplicateError (reported by a batch-6 sub-agent; C14 offender rename_dup_new)",
+     json.loads('{"tables": [{"name": "t0", "cols": [["id", "int64"], ["x", "datetime"], ["b", "bool"]], "rows": [[1, null, false], [2, null, false], [3, null, false], [4, null, false], [5, null, true], [6, null, false], [7, null, false]]}], "steps": [{"out": "v0", "verb": "source", "table": "t0"}], "result": "v0", "mode": "reject", "offender": {"kind": "verb", "which": "rename_dup_new", "expect": "ValueError", "anycol": ["col", {"v": "v0", "n": "id"}]}}')),
+]
+
 
 def main():
     log = subprocess.run(["git", "-C", "/repo", "log", "--format=%h %s"], capture_output=True, text=True).stdout.splitlines()
